@@ -3,7 +3,8 @@
 //! (a) sequential, exhaustive, inside `loom::model` on one thread: every (old,new) in {0..4}^2 and
 //!     every sequence of <= 3 offers for `ReloadId::update`; every sequence of <= 3 operations from
 //!     {update(k), fetch_max(k), swap(k), store(k), load : k in 0..4} from every initial value in
-//!     0..4 for `AtomicReloadId`, against a `max` reference; NEVER is the least id.
+//!     0..4 for `AtomicReloadId`, against a `max` reference; NEVER is the least id.  Split into one
+//!     loom execution per (initial value, 1- or 2-operation prefix), <= 65 subject calls each.
 //! (b) concurrent: 2-3 threads x 1-2 calls from {update(k), fetch_max(k), swap(k), load}, all
 //!     interleavings (no preemption bound: the space is tiny).  Oracle: the recorded results and the
 //!     final value are linearizable w.r.t. the sequential specification (brute force over all
@@ -120,14 +121,7 @@ fn seq_reload_id() {
     }
 }
 
-fn seq_atomic(init: usize) {
-    let never = AtomicReloadId::new();
-    if raw(never.load()) != 0 || never.load() != ReloadId::NEVER {
-        fail!("seq-AtomicReloadId-new-not-NEVER", "AtomicReloadId::new().load() = {:?}", never.load());
-    }
-    if raw(AtomicReloadId::default().load()) != 0 {
-        fail!("seq-AtomicReloadId-default-not-NEVER", "default().load() != NEVER");
-    }
+fn seq_alphabet() -> Vec<Op> {
     let mut alphabet = vec![];
     for k in VALS {
         alphabet.push(Op::Update(k));
@@ -142,7 +136,34 @@ fn seq_atomic(init: usize) {
         alphabet.push(Op::Store(k));
     }
     alphabet.push(Op::Load);
-    for ops in sequences(&alphabet, 1..=3) {
+    alphabet
+}
+
+fn seq_atomic_new() {
+    let never = AtomicReloadId::new();
+    if raw(never.load()) != 0 || never.load() != ReloadId::NEVER {
+        fail!("seq-AtomicReloadId-new-not-NEVER", "AtomicReloadId::new().load() = {:?}", never.load());
+    }
+    if raw(AtomicReloadId::default().load()) != 0 {
+        fail!("seq-AtomicReloadId-default-not-NEVER", "default().load() != NEVER");
+    }
+    case();
+}
+
+/// One loom execution = the sequences that start with `prefix` (1 op: that sequence alone; 2 ops:
+/// the 2-op sequence and its 21 extensions): at most 65 subject calls, so that loom's per-execution
+/// capacities (u16 per-thread operation counter, `max_branches`) stay far away whatever number of
+/// atomic operations one subject call is made of.  Overall the same 5 x 9 723 sequences as before.
+fn seq_atomic(init: usize, prefix: &[Op]) {
+    let mut seqs: Vec<Vec<Op>> = vec![prefix.to_vec()];
+    if prefix.len() == 2 {
+        for o in seq_alphabet() {
+            let mut q = prefix.to_vec();
+            q.push(o);
+            seqs.push(q);
+        }
+    }
+    for ops in seqs {
         case();
         let a = AtomicReloadId::with_value(rid(init));
         let mut s = init;
@@ -230,6 +251,20 @@ fn conc_body(init: usize, progs: Arc<Vec<Vec<Op>>>) {
 }
 
 /// `skip_update_only`: the family's update-only members are already members of an earlier family
+/// Is every subject call one loom scheduling point (one atomic RMW / load), as with the
+/// `AtomicUsize::fetch_max` implementation the 3-thread families were sized for?
+fn calls_are_single_steps() -> bool {
+    use std::sync::atomic::Ordering::Relaxed;
+    let a = AtomicReloadId::new();
+    let mut single = true;
+    for o in [Op::Update(1), Op::Update(1), Op::FetchMax(2), Op::FetchMax(1), Op::Swap(1), Op::Load] {
+        let b0 = BRANCHES.load(Relaxed);
+        apply(&a, o);
+        single &= BRANCHES.load(Relaxed) - b0 <= 1;
+    }
+    single
+}
+
 fn conc_family(out: &mut Vec<Config>, fam: &str, lens: &[usize], alphabet: &[Op], inits: &[usize], skip_update_only: bool) {
     let pools: Vec<Vec<Vec<Op>>> = lens.iter().map(|&l| sequences(alphabet, l..=l)).collect();
     for progs in thread_programs(&pools) {
@@ -239,17 +274,38 @@ fn conc_family(out: &mut Vec<Config>, fam: &str, lens: &[usize], alphabet: &[Op]
         for &init in inits {
             let name = format!("{fam}:i{init}:{}", progs.iter().map(|p| prog_name(p)).collect::<Vec<_>>().join("|"));
             let progs = Arc::new(progs.clone());
-            out.push(Config::new(name, Bound::Unbounded, move || conc_body(init, progs.clone())));
+            // two threads: tiny whatever a call is made of.  Three threads: exhaustive (no bound)
+            // when a call is one atomic step, preemption-bounded when it is a multi-step loop.
+            let bound = if lens.len() <= 2 { Bound::Unbounded } else { Bound::Adaptive(calls_are_single_steps) };
+            out.push(Config::new(name, bound, move || conc_body(init, progs.clone())));
         }
     }
 }
 
+fn probe() {
+    must_branch("AtomicReloadId update / fetch_max / swap / store / load", || {
+        let a = AtomicReloadId::new();
+        a.update(rid(1));
+        a.fetch_max(rid(2));
+        a.swap(rid(1));
+        a.store(rid(3));
+        a.load();
+    });
+    outcome(&PROBE);
+}
+
 pub fn configs(thorough: bool) -> Vec<Config> {
     use Op::*;
-    let mut v = vec![];
+    let mut v = vec![Config::new(PROBE.into(), Bound::Unbounded, probe)];
     v.push(Config::new("seq:ReloadId".into(), Bound::Unbounded, seq_reload_id));
-    for init in VALS {
-        v.push(Config::new(format!("seq:AtomicReloadId:i{init}"), Bound::Unbounded, move || seq_atomic(init)));
+    v.push(Config::new("seq:AtomicReloadId::new".into(), Bound::Unbounded, seq_atomic_new));
+    // shortest prefixes first: all 1-op sequences, then per 2-op prefix the 2- and 3-op sequences
+    for plen in [1usize, 2] {
+        for init in VALS {
+            for prefix in sequences(&seq_alphabet(), plen..=plen) {
+                v.push(Config::new(format!("seq:AtomicReloadId:i{init}:{}", prog_name(&prefix)), Bound::Unbounded, move || seq_atomic(init, &prefix)));
+            }
+        }
     }
     // simplest first.  Names: <family>:i<initial>:<program of thread 0>|<thread 1>|…  (uK update, mK fetch_max, sK swap, l load)
     let upd: Vec<Op> = (0..=3).map(Update).collect();
@@ -275,3 +331,11 @@ pub fn configs(thorough: bool) -> Vec<Config> {
     }
     v
 }
+
+pub const SUB: crate::driver::Sub = crate::driver::Sub {
+    name: "c18_reloadid",
+    property: "C18",
+    configs,
+    rule: "configs = (a) exhaustive sequential cases on one loom thread: all (old,new) in {0..4}^2 and all offer sequences of length <=3 for ReloadId::update; all operation sequences of length <=3 over {update,fetch_max,swap,store}x{0..4}+load from every initial value 0..4 for AtomicReloadId, vs a max reference; (b) every assignment of 1-2 operations from {update k, fetch_max k, swap k, load} to 2-3 threads (up to thread symmetry) x initial values; for each config loom enumerates every interleaving of the intercepted atomic operations (DPOR, C11 model). evaluations = loom executions + sequential cases; distinct = distinct (config, results, final value) observations",
+    bound: "threads 2-3, calls per thread 1-2 (3 threads x 2 mixed calls: thorough only; 3 threads x 2 updates over {1,2}: both tiers), ids 0..4 (sequential) / 0..3 (concurrent); no preemption bound, except 3-thread configs when a call is measured to be more than one atomic step (then the tier bound 2 / 3)",
+};
